@@ -256,7 +256,7 @@ func runC12(c *core.Ctx) {
 			}
 		}
 		if firstInc == nil {
-			o.Fail("consumed is never incremented")
+			o.Unrec("no increment of a variable called consumed was found in Decode (the count is kept elsewhere): that a byte is consumed before any return that follows a read is not decided")
 			return
 		}
 		for _, r := range g.Returns() {
@@ -336,14 +336,20 @@ func runC12(c *core.Ctx) {
 		}
 		// mixed children are an error: some error return is reached exactly when the counter is neither 0 nor all
 		okDefault := false
+		errReturns := 0
 		for _, r := range g.Returns() {
 			rs := r.AST.(*ast.ReturnStmt)
-			if len(rs.Results) != 3 || core.IsNil(info, rs.Results[2]) {
+			if len(rs.Results) == 0 {
 				continue
 			}
+			errRes := rs.Results[len(rs.Results)-1]
+			if t := info.TypeOf(errRes); t == nil || !(core.IsErrorType(t) || core.IsNil(info, errRes)) || core.IsNil(info, errRes) {
+				continue
+			}
+			errReturns++
 			// the error may be chosen earlier (a helper folded in: err = errX; ...; if err != nil { return }):
 			// the facts that hold where it is chosen count
-			for _, vc := range valueCases(g, r, rs.Results[2], 2) {
+			for _, vc := range valueCases(g, r, errRes, 2) {
 				if core.IsNil(info, vc.Expr) {
 					continue
 				}
@@ -357,7 +363,11 @@ func runC12(c *core.Ctx) {
 				}
 			}
 		}
-		o.Require(okDefault, "mixed leaf/non-leaf children do not lead to an error")
+		if !okDefault && errReturns == 0 {
+			o.Unrec("newTree has no return of an error in the form the rule looks for: whether mixed leaf/non-leaf children are rejected is not decided")
+		} else {
+			o.Require(okDefault, "mixed leaf/non-leaf children do not lead to an error")
+		}
 		// a leaf only when all children are leaves, a subtree only when none is
 		okLeaf, okSub := false, false
 		for _, v := range g.Vs {
@@ -451,6 +461,25 @@ func runC12(c *core.Ctx) {
 						return true
 					}
 					return false
+				}
+				// the running minimum by the builtin: shortest = min(shortest, len(r.Low))
+				if call, isCall := ast.Unparen(as.Rhs[0]).(*ast.CallExpr); isCall && len(call.Args) == 2 {
+					if k := core.CalleeKey(info, call); k == "builtin.min" || k == "builtin.max" {
+						self, other := false, false
+						for _, a := range call.Args {
+							if core.ObjOf(info, a) == obj {
+								self = true
+							} else if isLen(a, 2) {
+								other = true
+							}
+						}
+						if self && other {
+							if k == "builtin.max" {
+								o.FailAt(fn.Site(as, ""), "the result is replaced by the LONGER of the lengths: 9.7.6.3 asks for the shortest code length")
+							}
+							continue
+						}
+					}
 				}
 				if !isLen(as.Rhs[0], 2) {
 					// a sentinel the loop minimises away: an initial value that no code length exceeds
